@@ -30,7 +30,7 @@ pub fn def() -> PropDef {
         replay,
         bounds: |_t| json!({"initial_packets": initial().len(), "script_len": 3, "callback_program_len": 2, "raw_packet_capacities": ["0", "len-1", "len", "8192"]}),
         assumptions: &["undefined behaviour that neither changes a transcript, nor touches a canary (64 bytes before, >=4 KiB after each buffer), nor crashes the process is not detected"],
-        budget_s: |t| t.pick(55, 1200),
+        budget_s: |t| t.pick(75, 1200),
         exhaustive: true,
         nshards: 16,
         post: |rep, _| {
